@@ -597,6 +597,8 @@ CallFn(st, env, f, args) ==
     ELSE IF f.t = "bfn"
     THEN CASE f.nm \in BinNames /\ Len(args) = 2 ->
                  LET o == BinOp(f.nm, args[1], args[2]) IN IF o.ok THEN RVal(st, o.v) ELSE RThr(st, "type")
+           [] f.nm = "-" /\ Len(args) = 1 ->          \* prefix minus: `-e` is the call of whatever `-` names with one argument
+                 IF args[1].t = "int" THEN RVal(st, VInt(-args[1].i)) ELSE RThr(st, "type")
            [] f.nm = "print" ->
                  IF \A i \in 1..Len(args) : Printable(args[i])
                  THEN RVal([st EXCEPT !.out = Append(@, [i \in 1..Len(args) |-> Show(args[i], FALSE)])], Null)
